@@ -290,12 +290,23 @@ def scaling_args(plan):
     return args
 
 
+def _plan_variant(plan, salt, n):
+    """deterministic choice among n spellings of the same request"""
+    import zlib
+    return zlib.crc32(repr((salt, sorted((k, repr(v)) for k, v in plan.items()))).encode()) % n
+
+
 def storage_args(plan):
     args = []
     if plan.get("flat"):
         args.append("--flat")
     if not plan.get("gzip", True):
-        args.append("--no-gzip")
+        # both documented spellings
+        args.append(("--no-gzip", "--no-compression")[_plan_variant(plan, "nogz", 2)])
+    else:
+        lvl = (None, None, 0, 1, 6, 9)[_plan_variant(plan, "lvl", 6)]
+        if lvl is not None:
+            args += ["--compresslevel", str(lvl)]
     return args
 
 
@@ -340,6 +351,8 @@ def prepare_volume(work, plan, data):
     argv = [nii, out] + scaling_args(plan) + storage_args(plan)
     if plan.get("mmap"):
         argv.append("--mmap")
+    elif _plan_variant(plan, "full", 4) == 0:
+        argv.append("--load-full-volume")          # the default, spelled out
     prepd = {"dir": d, "nii": nii, "out": out, "argv": argv, "prep": prep}
     if plan.get("prepopulate") and not any(x["outcome"] != "ok" for x in prep):
         # the destination already holds the conversion of ANOTHER volume of the same
